@@ -287,6 +287,11 @@ func (r *vRepo) add(pos int, e vEntry) error {
 			return fmt.Errorf("unknown policy %q", e.V)
 		}
 		ap := p.abs()
+		if n := len(ap.Globals); n > 1 {
+			// the order in which global rules are declared carries no meaning: rotate it per scenario and position
+			k := (r.salt + pos) % n
+			ap.Globals = append(append([]conc.AbsGlobal{}, ap.Globals[k:]...), ap.Globals[:k]...)
+		}
 		cv, sv := e.Cv == nil || *e.Cv, e.Sv == nil || *e.Sv
 		r.nPol++
 		r.rootVer++
